@@ -27,6 +27,7 @@ let () =
                 | "coll" -> M_coll.handle cmd args
                 | "stored" -> M_stored.handle cmd args
                 | "lo" -> M_loadout.handle cmd args
+                | "ops" -> M_ops.handle cmd args
                 | _ -> failwith ("unknown module " ^ m))
              | _ -> failwith "bad line"
            with
